@@ -40,7 +40,9 @@ LoadOutcome checked_load(const uint8_t* win, size_t n, const LoadOpts& o, MV* tr
   g_log.ev("load", n, item ? 1 : 0, item ? res.read : ((uint64_t)res.error.code << 48) ^ res.error.position);
   stat_add("load_calls");
   std::string where = fmt("%s: cbor_load on %zu byte(s) [%s%s]", o.where, n, to_hex(w, n < 24 ? n : 24).c_str(), n > 24 ? "..." : "");
-  bool injected = ow.refused_injected > 0;
+  // a refusal is a refusal, whether the plan's fault injected it or the request exceeded the allocator's single-request cap
+  // (the reference models the cap for preallocations and strings; a growth step of a long indefinite container can exceed it too)
+  bool injected = ow.refused > 0;
   if (injected) stat_add("load_calls_with_refusal");
 
   if (item) {
